@@ -330,6 +330,8 @@ FUNCTIONS['VLOOKUP'] = wrap_ufunc(
 
 
 def xtranspose(array):
+    if not isinstance(array, np.ndarray):  # Keeps the type of an error value.
+        array = np.asarray(array, object)
     return np.transpose(array).view(Array)
 
 
